@@ -229,9 +229,14 @@ def _detach() -> None:
     set_pkt_logging(_packet.PKT_LOGGER)
 
 
+def _asc(s: str) -> str:
+    """Text as it travels to TLC: 7-bit, injective (comments may be any text; the JSON/TLC route is kept ASCII)."""
+    return s if s.isascii() else s.encode("ascii", "backslashreplace").decode()
+
+
 def _read_lines(path: str) -> list[str]:
-    with open(path) as fh:
-        lines = [ln.rstrip("\n") for ln in fh]
+    with open(path, encoding="utf-8", errors="backslashreplace") as fh:
+        lines = [_asc(ln.rstrip("\n")) for ln in fh]
     # drop the library's own header line(s) '<dtm> # ramses_tx <version>' (written by set_pkt_logging at "now")
     return [ln for ln in lines if not (len(ln) > 27 and ln[26:].startswith(" # ramses_tx "))]
 
@@ -242,7 +247,7 @@ def t3(d: dt) -> list[int]:
 
 
 def _pkt_rec(p: Packet) -> dict:
-    return {"dtm": p.dtm.isoformat(timespec="microseconds"), "t": t3(p.dtm), "rssi": p._rssi, "frame": str(p), "comment": p.comment}
+    return {"dtm": p.dtm.isoformat(timespec="microseconds"), "t": t3(p.dtm), "rssi": p._rssi, "frame": str(p), "comment": _asc(p.comment)}
 
 
 async def _replay(path: str, regen_path: str) -> tuple[list[dict], Any]:
@@ -284,7 +289,7 @@ def log_session(offers: list[dict], via: str = "port", logcfg: str = "plain") ->
             except (exc.PacketInvalid, ValueError, AssertionError):
                 acc = 0
             written.append({"dtm": dtm_s, "t": t3(o["dtm"]), "rssi": o["rssi"], "frame": o["frame"], "err": o["err"],
-                            "comment": o["comment"], "acc": acc})
+                            "comment": _asc(o["comment"]), "acc": acc})
         _detach()
         lines = _read_lines(p1)
         loop = asyncio.new_event_loop()
@@ -391,7 +396,8 @@ FR_S2 = "RQ 001 18:000730 01:145038 --:------ 0008 001 00"
 FR_S3 = " I 255 --:------ --:------ 10:105624 1FD4 003 00AAD4"
 FR_BAD = " I --- 01:145038 01:145038 --:------ 1F09 003 FF073F"
 ANNOTS = [("045", "", ""), ("---", "", ""), ("...", "", ""), ("045", "E1 bad crc", ""), ("045", "", "note"),
-          ("045", "", "a * b < c # d"), ("000", "overrun * again < x", "and # comment")]
+          ("045", "", "a * b < c # d"), ("000", "overrun * again < x", "and # comment"),
+          ("045", "", "20.0\u00b0C \u2013 lounge \u2713")]        # "any comment": not 7-bit (MQTT / file / dict sources carry them)
 
 
 def synthetic_sessions(tier: str, seed: int) -> list[dict]:
